@@ -20,6 +20,7 @@ Definition env_facts (b : base) (te : Z * ev) : list alarm :=
   | EWDrop _ _ _ _ => [9007]
   | EWClose _ _ => [9009]
   | ECrash _ => [9010]
+  | EEnvMark c => [9000 + c]
   | _ => []
   end.
 
@@ -30,6 +31,7 @@ Definition alarms_of (s : rstate) (te : Z * ev) : list alarm :=
   let b := r_b s in
   let b' := bapply b te in
   let m := r_m s in
+  if b_ended b then (match snd te with ECensus n => when (negb (n =? 0)) 904 | EHarnessPanic => [906; 1304] | _ => [] end) ++ env_facts b te else
   mon_C01 b te ++ mon_C05 b te ++ mon_C02 b' te ++ mon_C07 b te ++ mon_C10s b te ++ mon_C13 b te ++
   mon_C08 b m te ++ mon_C09 b m te ++ mon_C13w b m te ++ mon_C18 b m te ++ mon_C19 b m te ++
   env_facts b te.
